@@ -85,7 +85,7 @@ theorem hashShort_head (p : Prefs) (t : Cps) : ∃ r, hashShort p (0x23 :: t) = 
     · exact absurd rfl h
 
 /-- `ColorValue.cssText` of a hash colour is `_hash(v)` -/
-theorem fmtColorSimple_hash (p : Prefs) (hsp : isBlank p.spacer = true) (t : Cps) :
+theorem fmtColorSimple_hash (p : Prefs) (hsp : isCssBlank p.spacer = true) (t : Cps) :
     fmtColorSimple p .hash (0x23 :: t) = hashShort p (0x23 :: t) := by
   obtain ⟨r, hr⟩ := hashShort_head p t
   have hm : ∃ c ∈ hashShort p (0x23 :: t), c ∉ outPunct := ⟨0x23, by rw [hr]; simp, by decide⟩
